@@ -19,13 +19,13 @@ import (
 )
 
 func TestVerifC07Mesh(t *testing.T) {
-	vRun(t, "C07.mesh", vCount(1200, 20000), func(c *vCase) {
+	vRun(t, "C07.mesh", vCount(2000, 40000), func(c *vCase) {
 		c.Bubble(func() {
 			params := gsParams(c)
 			th := PeerScoreThresholds{GossipThreshold: -100, PublishThreshold: -200, GraylistThreshold: -300, AcceptPXThreshold: 1000,
 				OpportunisticGraftThreshold: []float64{0, 1, 4, 8}[c.Intn(4)]}
 			scoring := c.Chance(0.8)
-			w := gsNewWorld(c, gsConfig{params: params, th: th, scoring: scoring, nPups: c.Range(4, 20), floodSub: 0.1})
+			w := gsNewWorld(c, gsConfig{params: params, th: th, scoring: scoring, nPups: c.Range(4, 20) + min(6, params.D), floodSub: 0.1})
 			if w == nil {
 				return
 			}
@@ -66,6 +66,23 @@ func TestVerifC07Mesh(t *testing.T) {
 					}
 				}
 			}
+			// every attached, subscribed puppet GRAFTs at once: the mesh reaches or passes Dhi (outbound peers are admitted
+			// beyond it), so the next heartbeat has to cut it back
+			w.extraOps = append(w.extraOps, func(w *gsWorld) *gsOp {
+				tn := w.topics[0]
+				k := 0
+				for _, gp := range w.pups {
+					if gp.attached && gp.subbed[tn] {
+						w.send(gp, vGraftRPC(tn))
+						k++
+					}
+				}
+				if k == 0 {
+					return &gsOp{Kind: "noop"}
+				}
+				vSettle(5 * time.Millisecond)
+				return &gsOp{Kind: "graftall", Topic: tn, Arg: uint64(k), T: time.Now(), After: w.nd.Snap()}
+			})
 			w.afterOp = func(op *gsOp) {
 				if op.After != nil {
 					structural(op.After, op.Kind)
